@@ -2,11 +2,12 @@ import CLModel.Props.C17
 /-!
 # C18 — The two big-number back-ends are interchangeable
 
-`backend_equiv_<op>`: `Rust.op args = Ossl.op args` (value, text and byte encodings, ok/err) on
-the domain of C17 — corollaries of the two refinement theorems of `CLModel.Props.C17`.
-For every operation where the back-ends differ on the pinned tree the file holds a witness
-with the concrete differing input (these are the replay inputs of the known findings
-`C18/*`), and the `_partial` equivalence under the hypothesis that excludes them.
+`backend_equiv_<op>`: `Rust.op args = Ossl.op args` (value, text and byte encodings, ok/err) —
+corollaries of the two refinement theorems of `CLModel.Props.C17`.  After the repairs in `/repo`
+the equivalences hold for all inputs for every operation except: the hexadecimal *text*
+(OpenSSL pads to whole bytes: `to_hex_differs`, a known finding), and — outside the domain of
+C17 — bit operations on negative values and exponents of `exp` above `2^64`
+(`bits_negative_differ`, `exp_huge_exponent_differs`).
 -/
 namespace CL.C18
 open CL CL.BN CL.Outcome CL.C17
@@ -41,31 +42,71 @@ theorem backend_equiv_set_negative (a : ℤ) (neg : Bool) :
     Rust.setNegative a neg = Ossl.setNegative a neg := by
   rw [rust_set_negative_refines_spec, ossl_set_negative_refines_spec]
 
+/-- the own extended Euclid of the pure-Rust back-end is `BN_mod_inverse`: same value, same
+errors, for every operand and every modulus -/
+theorem backend_equiv_inverse (a n : ℤ) : Rust.inverse a n = Ossl.inverse a n := by
+  rw [rust_inverse_refines_spec, ossl_inverse_refines_spec]
+
+theorem backend_equiv_mod_div (a b n : ℤ) : Rust.modDiv a b n = Ossl.modDiv a b n := by
+  rw [rust_mod_div_refines_spec, ossl_mod_div_refines_spec]
+
+/-- every base, exponent of either sign, modulus of either sign or zero -/
+theorem backend_equiv_mod_exp (a e n : ℤ) : Rust.modExp a e n = Ossl.modExp a e n := by
+  rw [rust_mod_exp_refines_spec, ossl_mod_exp_refines_spec]
+
+theorem backend_equiv_increment (a : ℤ) :
+    Rust.increment a = Ossl.increment a ∧ Rust.decrement a = Ossl.decrement a := ⟨rfl, rfl⟩
+
+theorem backend_equiv_from_u32 (n : ℕ) : Rust.fromU32 n = Ossl.fromU32 n := rfl
+
 theorem backend_equiv_from_bytes (bs : Bytes) : Rust.fromBytes bs = Ossl.fromBytes bs := rfl
+
+/-- the byte encoding is the same for every value, zero included (the empty string) -/
+theorem backend_equiv_to_bytes (a : ℤ) : Rust.toBytes a = Ossl.toBytes a := by
+  obtain ⟨h1, h2⟩ := to_bytes_refines_spec a
+  rw [h1, h2]
+
+/-- consequently the byte strings handed to the Fiat–Shamir hash are the same lists on both
+back-ends, whatever values are hashed -/
+theorem hash_inputs_agree (vs : List ℤ) : vs.map Rust.toBytes = vs.map Ossl.toBytes := by
+  apply List.map_congr_left
+  intro a _
+  exact backend_equiv_to_bytes a
 
 theorem backend_equiv_to_dec (a : ℤ) : Rust.toDec a = Ossl.toDec a := by
   obtain ⟨h1, h2, _⟩ := to_text_refines_spec a
   rw [h1, h2]
 
-/-- numerals of the strict grammar are read identically -/
-theorem backend_equiv_from_text_on_numerals (s : Text) (v : ℤ) :
-    (Spec.fromDec s = ok v → Rust.fromDec s = Ossl.fromDec s) ∧
-    (Spec.fromHex s = ok v → Rust.fromHex s = Ossl.fromHex s) := by
-  constructor
-  · intro h; obtain ⟨a, b⟩ := from_dec_refines_spec_on_numerals s v h; rw [a, b]
-  · intro h; obtain ⟨a, b⟩ := from_hex_refines_spec_on_numerals s v h; rw [a, b]
+/-- every text is read identically (same value or an error on both) -/
+theorem backend_equiv_from_text (s : Text) :
+    Rust.fromDec s = Ossl.fromDec s ∧ Rust.fromHex s = Ossl.fromHex s := by
+  obtain ⟨a, b⟩ := from_dec_refines_spec s
+  obtain ⟨c, d⟩ := from_hex_refines_spec s
+  exact ⟨by rw [a, b], by rw [c, d]⟩
 
 /-- what one back-end prints in decimal the other reads back as the same number (serialised
 artefacts carry big numbers as decimal text) -/
 theorem decimal_text_exchange (a : ℤ) :
     (Rust.toDec a).bind Ossl.fromDec = ok a ∧ (Ossl.toDec a).bind Rust.fromDec = ok a := by
   obtain ⟨_, _, h3, _, h5, _⟩ := text_round_trip a
-  rw [backend_equiv_to_dec a] at h3 ⊢
-  obtain ⟨h1, h2, _⟩ := to_text_refines_spec a
-  have hs : (Spec.toDec a).bind Spec.fromDec = ok a := (text_round_trip a).1
-  rw [h2] at h3 h5 ⊢
-  simp only [Spec.toDec, bind_ok] at hs h3 h5 ⊢
-  exact ⟨(from_dec_refines_spec_on_numerals _ _ hs).2, (from_dec_refines_spec_on_numerals _ _ hs).1⟩
+  constructor
+  · rw [backend_equiv_to_dec a]; exact h5
+  · rw [← backend_equiv_to_dec a]; exact h3
+
+/-- hexadecimal text exchanged in either direction is read as the same number, although the
+texts themselves differ (`to_hex_differs`) -/
+theorem hex_text_exchange (a : ℤ) :
+    (Rust.toHex a).bind Ossl.fromHex = ok a ∧ (Ossl.toHex a).bind Rust.fromHex = ok a := by
+  obtain ⟨_, _, _, h4, _, h6⟩ := text_round_trip a
+  constructor
+  · cases h : Rust.toHex a with
+    | ok t => rw [h] at h4; simp only [bind_ok] at h4 ⊢; rw [← (backend_equiv_from_text t).2]; exact h4
+    | err => rw [h] at h4; simp at h4
+    | panic => rw [h] at h4; simp at h4
+  · cases h : Ossl.toHex a with
+    | ok t => rw [h] at h6; simp only [bind_ok] at h6 ⊢; rw [(backend_equiv_from_text t).2]; exact h6
+    | err => rw [h] at h6; simp at h6
+    | panic => rw [h] at h6; simp at h6
 
 /-- bytes written by one back-end are read as the same magnitude by the other -/
 theorem bytes_exchange (a : ℤ) :
@@ -74,108 +115,40 @@ theorem bytes_exchange (a : ℤ) :
   obtain ⟨h1, h2, _⟩ := bytes_round_trip a
   exact ⟨h1, h2⟩
 
-/-! ## operations on which they agree on the C17 domain only -/
-
-/-- `to_bytes` agrees for every non-zero value … -/
-theorem backend_equiv_to_bytes_partial (a : ℤ) (ha : a ≠ 0) : Rust.toBytes a = Ossl.toBytes a := by
-  obtain ⟨h1, h2, _⟩ := to_bytes_canonical a ha
+/-- `generates_semiprime_subgroup`, all arguments (zero modulus: an error on both) -/
+theorem backend_equiv_semiprime (g p q n : ℤ) :
+    generatesSemiprimeSubgroup Rust.ops g p q n = generatesSemiprimeSubgroup Ossl.ops g p q n := by
+  obtain ⟨h1, h2⟩ := semiprime_refines_spec g p q n
   rw [h1, h2]
 
-/-- … **and differs for zero**: one zero byte against the empty string -/
-theorem zero_bytes_differ : Rust.toBytes 0 = ok [0] ∧ Ossl.toBytes 0 = ok [] := by decide
+/-! ## operations on which they agree on the C17 domain -/
 
-/-- consequently the byte strings handed to the Fiat–Shamir hash differ whenever a hashed value
-is `0`: for every list of values that contains a zero, the lists of encodings differ -/
-theorem hash_of_zero_differs (pre post : List ℤ) :
-    (pre ++ 0 :: post).map Rust.toBytes ≠ (pre ++ 0 :: post).map Ossl.toBytes := by
-  intro h
-  have hlen : (pre.map Rust.toBytes).length = (pre.map Ossl.toBytes).length := by simp
-  simp only [List.map_append, List.map_cons] at h
-  have := (List.append_inj h hlen).2
-  simp only [List.cons.injEq] at this
-  exact absurd this.1 (by decide)
+/-- `exp` for every base and every exponent below `2^64` (negative exponents: an error on both) -/
+theorem backend_equiv_exp (a k : ℤ) (hk64 : k < 2 ^ 64) : Rust.exp a k = Ossl.exp a k := by
+  rw [rust_exp_refines_spec a k hk64, ossl_exp_refines_spec a k]
 
-theorem backend_equiv_inverse_partial (a n : ℤ) (ha : 0 ≤ a) (hn : n ≠ -1) :
-    Rust.inverse a n = Ossl.inverse a n := by
-  rw [rust_inverse_refines_spec_partial a n ha hn, ossl_inverse_refines_spec]
-
-theorem inverse_negative_differs : Rust.inverse (-3) 5 = ok 2 ∧ Ossl.inverse (-3) 5 = ok 3 := by
-  decide
-
-theorem inverse_modulus_minus_one_differs :
-    Rust.inverse 3 (-1) = ok 0 ∧ Ossl.inverse 3 (-1) = err := by decide
-
-theorem backend_equiv_mod_div_partial (a b n : ℤ) (hb : 0 ≤ b) (hn : n ≠ -1) :
-    Rust.modDiv a b n = Ossl.modDiv a b n := by
-  rw [rust_mod_div_refines_spec_partial a b n hb hn, ossl_mod_div_refines_spec]
-
-theorem mod_div_negative_divisor_differs :
-    Rust.modDiv 1 (-3) 5 = ok 2 ∧ Ossl.modDiv 1 (-3) 5 = ok 3 := by decide
-
-/-- `mod_exp` with a non-negative exponent and a non-zero modulus: every base, moduli of
-either sign -/
-theorem backend_equiv_mod_exp_partial (a e n : ℤ) (he : 0 ≤ e) (hn : n ≠ 0) :
-    Rust.modExp a e n = Ossl.modExp a e n := by
-  rw [rust_mod_exp_refines_spec_partial a e n he hn,
-    ossl_mod_exp_refines_spec_partial a e n (fun h => hn h.2)]
-
-/-- `mod_exp` with a negative exponent: non-negative base, modulus `≠ 0, ±1` -/
-theorem backend_equiv_mod_exp_negative_exponent_partial (a e n : ℤ) (he : e < 0) (ha : 0 ≤ a)
-    (hn : 2 ≤ n.natAbs) : Rust.modExp a e n = Ossl.modExp a e n := by
-  rw [rust_mod_exp_negative_exponent_partial a e n he ha hn,
-    ossl_mod_exp_refines_spec_partial a e n (fun h => by omega)]
-
-theorem mod_exp_zero_modulus_differs :
-    Rust.modExp 6 5 0 = panic ∧ Ossl.modExp 6 5 0 = err ∧
-    Rust.modExp 6 0 0 = panic ∧ Ossl.modExp 6 0 0 = ok 1 := by decide
-
-theorem mod_exp_negative_base_negative_exponent_differs :
-    Rust.modExp (-3) (-1) 5 = ok 2 ∧ Ossl.modExp (-3) (-1) 5 = ok 3 := by decide
-
-theorem mod_exp_unit_modulus_differs :
-    Rust.modExp 6 (-1) 1 = ok 0 ∧ Ossl.modExp 6 (-1) 1 = err := by decide
-
-theorem backend_equiv_exp_partial (a k : ℤ) (hk : 0 ≤ k) (hk64 : k < 2 ^ 64)
-    (h00 : ¬ (a = 0 ∧ k = 0)) : Rust.exp a k = Ossl.exp a k := by
-  rw [rust_exp_refines_spec_partial a k hk hk64 h00, ossl_exp_refines_spec_partial a k hk]
-
-theorem exp_zero_zero_differs : Rust.exp 0 0 = ok 0 ∧ Ossl.exp 0 0 = ok 1 := by decide
-theorem exp_negative_exponent_differs : Rust.exp 2 (-3) = err ∧ Ossl.exp 2 (-3) = ok 8 := by
-  decide
-/-- exponents `≥ 2^64`: refused by the pure-Rust back-end, evaluated by OpenSSL -/
+/-- exponents `≥ 2^64`: refused by the pure-Rust back-end, evaluated by OpenSSL (outside the
+domain of C17) -/
 theorem exp_huge_exponent_differs :
     Rust.exp 1 18446744073709551616 = err ∧ Ossl.exp 1 18446744073709551616 = ok 1 := by
   decide
 
-theorem backend_equiv_increment_partial (a : ℤ) (ha : 0 ≤ a) :
-    Rust.increment a = Ossl.increment a ∧ Rust.decrement a = Ossl.decrement a := by
-  rw [rust_increment_refines_spec, rust_decrement_refines_spec,
-    ossl_increment_refines_spec_partial a ha, ossl_decrement_refines_spec_partial a ha]
-  exact ⟨rfl, rfl⟩
-
-theorem increment_negative_differs :
-    Rust.increment (-5) = ok (-4) ∧ Ossl.increment (-5) = ok 6 ∧
-    Rust.decrement (-5) = ok (-6) ∧ Ossl.decrement (-5) = ok 4 := by decide
-
-theorem backend_equiv_from_u32_partial (n : ℕ) (h : n < 4294967296) :
-    Rust.fromU32 n = Ossl.fromU32 n := by
-  rw [rust_from_u32_refines_spec, ossl_from_u32_refines_spec_partial n h]
-
-theorem from_u32_differs : Rust.fromU32 4294967301 = ok 4294967301 ∧ Ossl.fromU32 4294967301 = ok 5 := by
-  decide
-
-/-- shifts and bit operations on non-negative values -/
-theorem backend_equiv_bits_partial (a n : ℤ) (k : ℕ) (ha : 0 ≤ a) (hn : 0 ≤ n) (hk : k < 2147483648) :
+/-- shifts and bit operations on non-negative values (a negative bit index: `false` /
+an error on both) -/
+theorem backend_equiv_bits (a n : ℤ) (k : ℕ) (ha : 0 ≤ a)
+    (hk : k < 2147483648 ∨ a.natAbs < 2 ^ k) :
     Rust.rshift a k = Ossl.rshift a k ∧ Rust.rshift1 a = Ossl.rshift1 a ∧
     Rust.isBitSet a n = Ossl.isBitSet a n ∧ Rust.setBit a n = Ossl.setBit a n := by
-  rw [rust_rshift_refines_spec, ossl_rshift_refines_spec_partial a k ha hk, rust_rshift1_refines_spec,
-    ossl_rshift1_refines_spec_partial a ha, rust_is_bit_set_refines_spec a n ha hn,
-    ossl_is_bit_set_refines_spec a n ha hn, rust_set_bit_refines_spec a n ha hn,
-    ossl_set_bit_refines_spec a n ha]
-  exact ⟨rfl, rfl, rfl, rfl⟩
+  refine ⟨?_, ?_, ?_, ?_⟩
+  · rw [rust_rshift_refines_spec, ossl_rshift_refines_spec a k ha hk]
+  · rw [rust_rshift1_refines_spec, ossl_rshift1_refines_spec a ha]
+  · by_cases hn : n < 0
+    · simp [Rust.isBitSet, Ossl.isBitSet, hn]
+    · rw [rust_is_bit_set_refines_spec a n ha (by omega), ossl_is_bit_set_refines_spec a n ha (by omega)]
+  · rw [rust_set_bit_refines_spec a n ha, ossl_set_bit_refines_spec a n ha]
 
 /-- `bitwise_or_big_int` on non-negative operands -/
-theorem backend_equiv_bitwise_or_partial (a b : ℤ) (ha : 0 ≤ a) (hb : 0 ≤ b) :
+theorem backend_equiv_bitwise_or (a b : ℤ) (ha : 0 ≤ a) (hb : 0 ≤ b) :
     bitwiseOr Rust.ops a b = bitwiseOr Ossl.ops a b := by
   rw [bitwiseOr_spec a b ha hb, bitwiseOr_spec_ossl a b ha hb]
 
@@ -187,33 +160,20 @@ theorem bits_negative_differ :
     Rust.setBit (-5) 1 = ok (-5) ∧ Ossl.setBit (-5) 1 = ok (-7) ∧
     bitwiseOr Rust.ops (-5) 2 = ok 3 ∧ bitwiseOr Ossl.ops (-5) 2 = ok 7 := by decide
 
-theorem set_bit_negative_index_differs : Rust.setBit 5 (-1) = panic ∧ Ossl.setBit 5 (-1) = err := by
-  decide
+/-! ## the text encoding that still differs -/
 
-theorem rshift_count_differs : (∃ v, Rust.rshift 1024 2147483648 = ok v) ∧
-    Ossl.rshift 1024 2147483648 = err := ⟨⟨_, rfl⟩, by simp [Ossl.rshift]⟩
-
-/-- `generates_semiprime_subgroup` for a non-zero modulus and non-negative `p'`, `q'` -/
-theorem backend_equiv_semiprime_partial (g p q n : ℤ) (hn : n ≠ 0) (hp : 0 ≤ p) (hq : 0 ≤ q) :
-    generatesSemiprimeSubgroup Rust.ops g p q n = generatesSemiprimeSubgroup Ossl.ops g p q n := by
-  obtain ⟨h1, h2⟩ := semiprime_generator g p q n hn hp hq
-  rw [h1, h2]
-
-/-! ## text encodings that differ -/
-
-/-- hexadecimal printing: OpenSSL pads to whole bytes -/
+/-- hexadecimal printing: OpenSSL pads to whole bytes (both texts denote the same number:
+`hex_text_exchange`) -/
 theorem to_hex_differs : Rust.toHex 10 = ok "A".toList ∧ Ossl.toHex 10 = ok "0A".toList := by decide
 
-theorem dec_plus_sign_differs : Rust.fromDec "+5".toList = ok 5 ∧ Ossl.fromDec "+5".toList = err := by
-  decide
-theorem dec_trailing_garbage_differs :
-    Rust.fromDec "5x".toList = err ∧ Ossl.fromDec "5x".toList = ok 5 := by decide
-theorem dec_underscore_differs :
-    Rust.fromDec "1_000".toList = ok 1000 ∧ Ossl.fromDec "1_000".toList = ok 1 := by decide
-theorem dec_nul_differs :
-    Rust.fromDec ['5', Char.ofNat 0] = err ∧ Ossl.fromDec ['5', Char.ofNat 0] = panic := by decide
-theorem hex_garbage_differs :
-    Rust.fromHex "fg".toList = err ∧ Ossl.fromHex "fg".toList = ok 15 ∧
-    Rust.fromHex "+ff".toList = ok 255 ∧ Ossl.fromHex "+ff".toList = err := by decide
+/-- the inputs on which the unrepaired back-ends differed now give the same result -/
+example : Rust.toBytes 0 = ok [] ∧ Ossl.toBytes 0 = ok [] ∧
+    Rust.inverse (-3) 5 = ok 3 ∧ Ossl.inverse (-3) 5 = ok 3 ∧
+    Rust.increment (-5) = ok (-4) ∧ Ossl.increment (-5) = ok (-4) ∧
+    Rust.exp 0 0 = ok 1 ∧ Ossl.exp 0 0 = ok 1 ∧
+    Rust.fromDec "+5".toList = err ∧ Ossl.fromDec "+5".toList = err ∧
+    Rust.fromDec "5x".toList = err ∧ Ossl.fromDec "5x".toList = err ∧
+    Rust.modExp 6 5 0 = err ∧ Ossl.modExp 6 5 0 = err ∧
+    Rust.setBit 5 (-1) = err ∧ Ossl.setBit 5 (-1) = err := by decide
 
 end CL.C18
